@@ -62,14 +62,14 @@ Section Leg.
     unfold hyps_ok in Hh.
     repeat (apply andb_true_iff in Hh; let H' := fresh "K" in destruct Hh as [Hh H']).
     rename Hh into J1, K3 into J2, K2 into J3, K1 into J4, K0 into J5, K into J6.
-    rewrite forallb_forall in J2. rewrite forallb_forall in J5.
+    rewrite forallb_forall in J2. rewrite forallb_forall in J5. unfold lz in *.
     assert (H3 : ol_rel l = true <-> In (ol_nid l) (rc_units cfg)).
     { apply Bool.eqb_prop in J3. rewrite J3. apply mem_lz_spec. }
     assert (H4 : ol_rel l = true -> c = cellof_of clx (ol_nid l)).
     { intros E. rewrite E in J4. apply list_Z_eqb_spec; auto. }
     assert (H5 : forall u, In u (rc_units cfg) -> is_active list_Z_eqb s u = false ->
                            cellof_of clx u = cellof_of cl u).
-    { intros u Hu Ha. specialize (J5 u Hu). cbv beta in J5. unfold is_active in Ha. rewrite Ha in J5.
+    { intros u Hu Ha. specialize (J5 u Hu). cbv beta in J5. unfold is_active in Ha. unfold lz in *. rewrite Ha in J5.
       apply list_Z_eqb_spec; auto. }
     assert (H6 : forall a, active_id s = Some a -> a <> ol_nid l -> cellof_of clx a = cellof_of cl a).
     { intros a Ea Hne. rewrite Ea in J6. destruct (list_Z_eqb a (ol_nid l)) eqn:E.
@@ -84,18 +84,29 @@ Section Leg.
   Qed.
 
   (** (c): the active unit changes its cell only at a cell-boundary event, into the neighbouring cell *)
+  Lemma refill_active (s : ost) c s' :
+    refill list_Z_eqb s c = Ok s' -> active_id s' = active_id s /\ active_cell s' = active_cell s.
+  Proof.
+    unfold refill. destruct (aget _ (surplus _) _) as [sl|]; [|intros H; discriminate H].
+    destruct (pop_last _) as [[x sl']|]; [|intros H; discriminate H]. simpl.
+    destruct (aget _ (occupants _) _); intros H; inversion H; subst; simpl; auto.
+  Qed.
+
   Lemma take_out_active (s2 : ost) c nid s' :
     take_out _ _ list_Z_eqb list_Z_eqb s2 c nid = Ok s' ->
     active_id s' = active_id s2 /\ active_cell s' = active_cell s2.
   Proof.
-    unfold take_out, refill, bind.
-    repeat match goal with
-           | |- context [match ?x with _ => _ end] => destruct x eqn:?; try discriminate
-           end;
-      intros H; inversion H; subst; simpl; auto;
-      repeat match goal with
-             | H : Ok _ = Ok _ |- _ => inversion H; subst; clear H
-             end; simpl; auto.
+    unfold take_out.
+    match goal with |- bind ?X ?F = _ -> _ => destruct X as [s4|] eqn:EX; [|discriminate] end.
+    assert (A4 : active_id s4 = active_id s2 /\ active_cell s4 = active_cell s2).
+    { destruct (aget _ (occupants _) _) as [oc|]; [|discriminate EX].
+      destruct (remove_first _ _ _) as [oc'|].
+      - destruct (refill_condition _ _ _).
+        + apply refill_active in EX. simpl in EX. exact EX.
+        + inversion EX; subst. simpl. auto.
+      - destruct (aget _ (surplus _) _) as [sl|]; [|discriminate EX].
+        destruct (remove_first _ _ _); [|discriminate EX]. inversion EX; subst. simpl. auto. }
+    simpl. destruct (negb _); intros H; inversion H; subst; simpl; tauto.
   Qed.
 
   Lemma update_active (s : ost) nid rel c s' :
@@ -105,10 +116,10 @@ Section Leg.
         /\ ((active_id s' = Some nid /\ active_cell s' = Some c) \/ active_id s' = None)).
   Proof.
     rewrite (update_unfold _ _ list_Z_eqb list_Z_eqb).
-    destruct (opt_id_eqb list_Z_eqb (active_id s) nid) eqn:E.
+    destruct (opt_id_eqb _ _ _) eqn:E.
     - intros H. inversion H; subst. left. simpl. auto.
     - intros H. right. split; auto.
-      destruct (reinsert _ _ list_Z_eqb s) as [s1|]; [|discriminate]. simpl in H.
+      destruct (reinsert _ _ _ _) as [s1|]; [|discriminate H]. simpl in H.
       destruct rel.
       + apply take_out_active in H. simpl in H. destruct H as [-> ->]. auto.
       + inversion H; subst. simpl. auto.
@@ -128,10 +139,10 @@ Section Leg.
     apply andb_true_iff in Hk. destruct Hk as [_ Hc].
     destruct (update list_Z_eqb list_Z_eqb s (ol_nid l) (ol_rel l) c) as [s1|] eqn:Eu; [|discriminate].
     destruct (snap_eqb s1 (ol_snap l)); [|discriminate]. inversion H; subst s1 cl'. clear H.
-    destruct (update_active _ _ _ _ _ Eu) as [(E1 & E2 & E3)|(E1 & [[E2 E3]|E2])].
+    destruct (update_active _ _ _ _ _ Eu) as [(E1 & E2 & E3)|(E1 & [[E2 E3]|E2])]; unfold ost, lz in *.
     - rewrite Ea in E1. simpl in E1.
       rewrite E3 in Ec'. inversion Ec'; subst c'.
-      unfold crossing_ok in Hc. rewrite Ea, Ec, E1 in Hc.
+      unfold crossing_ok in Hc. unfold ost, lz in *. rewrite Ea, Ec, E1 in Hc.
       destruct (list_Z_eqb ac c) eqn:E.
       + apply list_Z_eqb_spec in E. contradiction.
       + apply andb_true_iff in Hc. tauto.
@@ -195,7 +206,7 @@ Proof.
     - unfold cellof_of. rewrite (in_aget _ _ _ K2 Hin'). reflexivity. }
   destruct (init_inv _ _ list_Z_eqb list_Z_eqb list_Z_eqb_spec (rc_cells (case_cfg c)) K1
               (limit_of_max (oc_max c)) (case_us c) (cellof_of (case_cl0 c)) Hus) as (s & E & I & Ai & _).
-  rewrite Ei in E. inversion E; subst s.
+  unfold ost, lz in E, Ei. rewrite Ei in E. inversion E; subst s.
   split; auto. split; [|auto].
   simpl. unfold case_units.
   assert (Hm : map fst (case_cl0 c) = map (fun x => fst (fst x)) (case_us c)).
@@ -220,7 +231,7 @@ Proof.
   inversion E; subst states.
   destruct (init_case_inv _ _ _ Ei) as (ND1 & ND2 & I0 & _ & _).
   destruct (run_legs_inv (case_cfg c) ND1 ND2 _ _ _ _ I0 Er) as (Hl & Hf & _).
-  simpl. split; [lia|]. split; auto. split; auto.
+  simpl. split; [lia|]. split; [exact ND1|]. split; [exact ND2|]. constructor; auto.
 Qed.
 
 (** the cell recorded for a unit at a leg is the cell of its recorded position at that leg *)
